@@ -28,6 +28,8 @@ struct aws_thread_scheduler {
 struct cancellation_node {
     struct aws_task *task_to_cancel;
     struct aws_linked_list_node node;
+    /* true if the task was taken out of the scheduling queue, i.e. it never reached the task scheduler */
+    bool removed_from_scheduling_queue;
 };
 
 static void s_destroy_callback(void *arg) {
@@ -87,7 +89,12 @@ static void s_thread_fn(void *arg) {
         while (!aws_linked_list_empty(&cancel_list_cpy)) {
             struct aws_linked_list_node *node = aws_linked_list_pop_front(&cancel_list_cpy);
             struct cancellation_node *cancellation_node = AWS_CONTAINER_OF(node, struct cancellation_node, node);
-            aws_task_scheduler_cancel_task(&scheduler->scheduler, cancellation_node->task_to_cancel);
+            struct aws_task *task = cancellation_node->task_to_cancel;
+            /* A cancellation can arrive after its task has already run. Only cancel a task that is still pending,
+             * otherwise its function would be invoked a second time. */
+            if (cancellation_node->removed_from_scheduling_queue || task->abi_extension.scheduled) {
+                aws_task_scheduler_cancel_task(&scheduler->scheduler, task);
+            }
             aws_mem_release(scheduler->allocator, cancellation_node);
         }
 
@@ -213,6 +220,7 @@ void aws_thread_scheduler_cancel_task(struct aws_thread_scheduler *scheduler, st
 
     if (found_task) {
         aws_linked_list_remove(&found_task->node);
+        cancellation_node->removed_from_scheduling_queue = true;
     }
 
     cancellation_node->task_to_cancel = task;
